@@ -284,51 +284,87 @@ func ruleErrDecimalWrappers(w *World, r *RuleResult) {
 		return
 	}
 	okFlags, okErr := false, false
+	// fields of the receiver, whatever it is called
+	recvField := func(addr ssa.Value) string {
+		if fa, ok := addr.(*ssa.FieldAddr); ok && fa.X == ssa.Value(u.Params[0]) {
+			return w.exprOf(u, addr).Name
+		}
+		return ""
+	}
+	loadOf := func(v ssa.Value, field string) bool {
+		ld, ok := v.(*ssa.UnOp)
+		return ok && ld.Op == token.MUL && recvField(ld.X) == field
+	}
+	isFlagsStore := func(in ssa.Instruction) bool {
+		st, ok := in.(*ssa.Store)
+		if !ok || recvField(st.Addr) != "Flags" {
+			return false
+		}
+		bo, ok := st.Val.(*ssa.BinOp)
+		if !ok || bo.Op != token.OR {
+			return false
+		}
+		return (loadOf(bo.X, "Flags") && bo.Y == ssa.Value(u.Params[1])) || (loadOf(bo.Y, "Flags") && bo.X == ssa.Value(u.Params[1]))
+	}
+	isErrStore := func(in ssa.Instruction) bool {
+		st, ok := in.(*ssa.Store)
+		return ok && recvField(st.Addr) == "err" && st.Val == ssa.Value(u.Params[2])
+	}
 	for _, b := range u.Blocks {
 		for _, in := range b.Instrs {
-			st, ok := in.(*ssa.Store)
-			if !ok {
-				continue
+			if isFlagsStore(in) {
+				okFlags = true
 			}
-			switch w.exprOf(u, st.Addr).String() {
-			case "&e.Flags":
-				if bo, ok := st.Val.(*ssa.BinOp); ok && bo.Op == token.OR {
-					l, rr := w.exprOf(u, bo.X).String(), w.exprOf(u, bo.Y).String()
-					if (l == "e.Flags" && rr == "res") || (l == "res" && rr == "e.Flags") {
-						okFlags = true
-					}
-				}
-			case "&e.err":
-				if st.Val == ssa.Value(u.Params[2]) {
-					okErr = true
-				}
+			if isErrStore(in) {
+				okErr = true
+			}
+			if st, ok := in.(*ssa.Store); ok && recvField(st.Addr) == "err" && !isErrStore(in) {
+				okErr = false // something other than the operation's error is recorded
+				break
 			}
 		}
 	}
-	// both stores on every path to every return
+	// Flags |= res on every path; err = err on every path except those on which an earlier error is
+	// already recorded (e.err != nil: the first error wins, which is what the wrappers' guard implies anyway)
 	for _, b := range u.Blocks {
 		rt, isRet := b.Instrs[len(b.Instrs)-1].(*ssa.Return)
 		if !isRet {
 			continue
 		}
-		flagsSeen := seenBefore(rt, func(in ssa.Instruction) bool {
-			st, ok := in.(*ssa.Store)
-			if !ok || w.exprOf(u, st.Addr).String() != "&e.Flags" {
-				return false
-			}
-			bo, ok := st.Val.(*ssa.BinOp)
-			return ok && bo.Op == token.OR
-		})
-		errSeen := seenBefore(rt, func(in ssa.Instruction) bool {
-			st, ok := in.(*ssa.Store)
-			return ok && w.exprOf(u, st.Addr).String() == "&e.err"
-		})
-		if !flagsSeen {
+		if !seenBefore(rt, isFlagsStore) {
 			okFlags = false
 		}
-		if !errSeen {
-			okErr = false
+	}
+	{
+		seen := map[*ssa.BasicBlock]bool{}
+		var walk func(b *ssa.BasicBlock)
+		walk = func(b *ssa.BasicBlock) {
+			if seen[b] {
+				return
+			}
+			seen[b] = true
+			for _, in := range b.Instrs {
+				if isErrStore(in) {
+					return
+				}
+			}
+			if _, isRet := b.Instrs[len(b.Instrs)-1].(*ssa.Return); isRet {
+				okErr = false // reached a return without storing, with no earlier error recorded
+				return
+			}
+			for i, sc := range b.Succs {
+				if iff, ok := b.Instrs[len(b.Instrs)-1].(*ssa.If); ok {
+					if bo, ok := iff.Cond.(*ssa.BinOp); ok && isNilConst(bo.Y) && loadOf(bo.X, "err") {
+						// succ 0 = true edge
+						if (bo.Op == token.EQL && i == 1) || (bo.Op == token.NEQ && i == 0) {
+							continue // an earlier error is recorded on this edge
+						}
+					}
+				}
+				walk(sc)
+			}
 		}
+		walk(u.Blocks[0])
 	}
 	if okFlags && okErr {
 		r.ok("(*ErrDecimal).update | accumulates", w.pos(u.Pos()), "Flags |= res; err = err on every path", true)
